@@ -223,19 +223,19 @@ Proof.
 Qed.
 
 (* CountTicks(l) / TicksAtLevel(l) on an ordered domain.  With c the number of multiples of the level's
-   spacing in the widened domain: CountTicks = c exactly up to 10^6 ticks and within 2 + 1e-9 c of
+   spacing in the widened domain: CountTicks = c exactly up to 1000 ticks and within 2 + 1e-9 c of
    min(c, maxInt) beyond (the count is formed in float64 and saturated at maxInt); TicksAtLevel has
    status 0 and exactly c ticks, each within tolerance of the list - or status 3 (the harness did not call
    TicksAtLevel) and no ticks, only where c > 1000 *)
 Definition lin_level_spec (tolv : Q -> Q) (base eb : Z) (mn mx : Q) (lv : levobs) : Prop :=
   exists L, lin_level_list base eb mn mx (lv_level lv) L /\
     let c := Z.of_nat (length L) in
-    ((c <= 1000000)%Z -> lv_count lv = c) /\
-    ((1000000 < c)%Z -> (Z.abs (lv_count lv - Z.min c MAXINT) <= 2 + c / 1000000000)%Z) /\
+    ((c <= 1000)%Z -> lv_count lv = c) /\
+    ((1000 < c)%Z -> (Z.abs (lv_count lv - Z.min c MAXINT) <= 2 + c / 1000000000)%Z) /\
     ((lv_st lv = 0%Z /\ obs_close tolv L (lv_ticks lv) /\ Z.of_nat (length (lv_ticks lv)) = c)
      \/ (lv_st lv = 3%Z /\ (1000 < c)%Z /\ lv_ticks lv = [])).
 Lemma count_ok_sound c obs : count_ok c obs = true ->
-  ((c <= 1000000)%Z -> obs = c) /\ ((1000000 < c)%Z -> (Z.abs (obs - Z.min c MAXINT) <= 2 + c / 1000000000)%Z).
+  ((c <= 1000)%Z -> obs = c) /\ ((1000 < c)%Z -> (Z.abs (obs - Z.min c MAXINT) <= 2 + c / 1000000000)%Z).
 Proof.
   unfold count_ok. cbv zeta. intro H. apply Bool.orb_true_iff in H. destruct H as [H|H].
   - apply Z.eqb_eq in H. split; intro Hc.
